@@ -1,6 +1,5 @@
 import E3fpVerif.Codec
-import E3fpVerif.Model.Db
-import Std.Data.HashMap
+import E3fpVerif.Model.DbHist
 /-! Driver operations on databases (stateful: a store of live databases by id). -/
 namespace E3fpVerif
 open Lean
@@ -55,82 +54,121 @@ def jFpIn (j : Json) : Except String FpIn := do
 def jCols (j : Json) : Except String (List (String × List PVal)) :=
   if j == .null then .ok [] else jList (jPair jStr (jList jPVal)) j
 
-abbrev Store := Std.HashMap String Db
+/-- the live databases twice: the operational model's pool and the list-of-rows specification's
+pool (`Model/DbHist.lean`).  Every mutating op goes through `stepOp` *and* `specStep`; the two must
+give the same answer and `absPool` of the first must equal the second, otherwise the driver
+reports an error (a run-time instance of `Props/C05Hist.history_refines`). -/
+structure Store where
+  pool : Pool := []
+  spec : SPool := []
 
 def getDb (st : Store) (j : Json) (k : String := "id") : Except String Db := do
   let id ← jStr (← jField j k)
-  match st.get? id with
+  match st.pool.get? id with
   | some d => .ok d
   | none => .error s!"no db {id}"
+
+def getSpec (st : Store) (j : Json) (k : String := "id") : Except String SDb := do
+  let id ← jStr (← jField j k)
+  match st.spec.get? id with
+  | some d => .ok d
+  | none => .error s!"no spec db {id}"
 
 def stateRes (d : Db × Option Err) : Json :=
   match d.2 with
   | none => okJ (dbToJson d.1)
   | some e => Json.mkObj [("err", errToString e), ("db", dbToJson d.1)]
 
-def putRes (st : Store) (out : String) (r : Except Err Db) : Store × Json :=
-  match r with
-  | .ok d => (st.insert out d, okJ (dbToJson d))
-  | .error e => (st, errJ e)
+/-- run one history op on both pools; `show` names the database whose dump is the answer and says
+whether a refusal still reports the (unchanged) state -/
+def histStep (st : Store) (op : DbOp) (show_ : String) (withState : Bool) : Except String (Store × Json) :=
+  match stepOp st.pool op, specStep st.spec op with
+  | some (p, a), some (sp, a') =>
+    if a != a' then .error s!"specification answers {repr a'} but the model answers {repr a}"
+    else if absPool p != sp then .error "model pool and specification pool differ after the step"
+    else
+      let st' : Store := { pool := p, spec := sp }
+      match a with
+      | none =>
+        match p.get? show_ with
+        | some d => .ok (st', okJ (dbToJson d))
+        | none => .error s!"no db {show_} after the step"
+      | some e =>
+        if withState then
+          match p.get? show_ with
+          | some d => .ok (st', Json.mkObj [("err", errToString e), ("db", dbToJson d)])
+          | none => .error s!"no db {show_} after the step"
+        else .ok (st', errJ e)
+  | none, none => .error "operation on a database that is not live"
+  | _, _ => .error "model and specification disagree on which databases are live"
+
+def sameRead {α : Type} [BEq α] (what : String) (m s : Except Err α) : Except String Unit :=
+  match m, s with
+  | .ok x, .ok y => if x == y then .ok () else .error s!"{what}: specification and model return different values"
+  | .error e, .error e' => if e == e' then .ok () else .error s!"{what}: specification and model raise different errors"
+  | _, _ => .error s!"{what}: one of specification and model raises"
+
+instance : BEq FpIn := ⟨fun a b => decide (a = b)⟩
 
 def dbOp (st : Store) (op : String) (j : Json) : Except String (Store × Json) := do
   match op with
   | "db.new" =>
     let id ← jStr (← jField j "id")
-    let d := Db.new (← jKind (← jField j "kind")) (← jInt (← jField j "level")) (← jOptStr (jFieldD j "name"))
-    return (st.insert id d, okJ (dbToJson d))
+    histStep st (.new id (← jKind (← jField j "kind")) (← jInt (← jField j "level")) (← jOptStr (jFieldD j "name"))) id false
   | "db.add" =>
     let id ← jStr (← jField j "id")
-    let d ← getDb st j
-    let r := d.add (← jList jFpIn (← jField j "fps"))
-    return (st.insert id r.1, stateRes r)
+    histStep st (.add id (← jList jFpIn (← jField j "fps"))) id true
   | "db.from_array" =>
     let id ← jStr (← jField j "id")
-    let r := Db.fromArray (← jList jRow (← jField j "rows")) (← jNat (← jField j "bits"))
+    histStep st (.fromArray id (← jList jRow (← jField j "rows")) (← jNat (← jField j "bits"))
       (← jList jOptStr (← jField j "names")) (← jKind (← jField j "kind")) (← jInt (← jField j "level"))
-      (← jOptStr (jFieldD j "name")) (← jCols (jFieldD j "props"))
-    match r.2 with
-    | none => return (st.insert id r.1, okJ (dbToJson r.1))
-    | some e => return (st, errJ e)
+      (← jOptStr (jFieldD j "name")) (← jCols (jFieldD j "props"))) id false
   | "db.get_index" =>
-    return (st, exJ fpInToJson ((← getDb st j).getIndex (← jInt (← jField j "i"))))
+    let i ← jInt (← jField j "i")
+    let r := (← getDb st j).getIndex i
+    sameRead "db[i]" r ((← getSpec st j).getIndex i)
+    return (st, exJ fpInToJson r)
   | "db.get_name" =>
-    return (st, exJ (fun l => Json.arr (l.map fpInToJson).toArray) ((← getDb st j).getName (← jStr (← jField j "nm"))))
+    let nm ← jStr (← jField j "nm")
+    let r := (← getDb st j).getName nm
+    sameRead "db[name]" r ((← getSpec st j).getName nm)
+    return (st, exJ (fun l => Json.arr (l.map fpInToJson).toArray) r)
   | "db.subset" =>
-    return putRes st (← jStr (← jField j "out")) ((← getDb st j).subset (← jList jStr (← jField j "names")) (← jOptStr (jFieldD j "name")))
+    let out ← jStr (← jField j "out")
+    histStep st (.subset (← jStr (← jField j "id")) out (← jList jStr (← jField j "names")) (← jOptStr (jFieldD j "name"))) out false
   | "db.as_type" =>
-    return putRes st (← jStr (← jField j "out")) ((← getDb st j).asType (← jKind (← jField j "kind")))
+    let out ← jStr (← jField j "out")
+    histStep st (.asType (← jStr (← jField j "id")) out (← jKind (← jField j "kind"))) out false
   | "db.fold" =>
-    return putRes st (← jStr (← jField j "out")) ((← getDb st j).fold (← jNat (← jField j "bits"))
-      (← jOpt jKind (jFieldD j "kind")) (← jOptStr (jFieldD j "name")))
+    let out ← jStr (← jField j "out")
+    histStep st (.fold (← jStr (← jField j "id")) out (← jNat (← jField j "bits"))
+      (← jOpt jKind (jFieldD j "kind")) (← jOptStr (jFieldD j "name"))) out false
   | "db.concat" =>
-    let ids ← jList jStr (← jField j "ids")
-    let dbs ← ids.mapM (fun id => match st.get? id with | some d => Except.ok d | none => .error s!"no db {id}")
-    return putRes st (← jStr (← jField j "out")) (Db.concat dbs)
+    let out ← jStr (← jField j "out")
+    histStep st (.concat (← jList jStr (← jField j "ids")) out) out false
   | "db.set_prop" =>
     let id ← jStr (← jField j "id")
-    let r := (← getDb st j).setProp (← jStr (← jField j "key")) (← jList jPVal (← jField j "vals"))
-    return (st.insert id r.1, stateRes r)
+    histStep st (.setProp id (← jStr (← jField j "key")) (← jList jPVal (← jField j "vals"))) id true
   | "db.update_props" =>
     let id ← jStr (← jField j "id")
-    let r := (← getDb st j).updateProps (← jCols (← jField j "props"))
-    return (st.insert id r.1, stateRes r)
+    histStep st (.updateProps id (← jCols (← jField j "props"))) id true
   | "db.pickle" =>
-    return putRes st (← jStr (← jField j "out")) (.ok (← getDb st j).pickleRoundTrip)
+    let out ← jStr (← jField j "out")
+    histStep st (.pickle (← jStr (← jField j "id")) out) out false
   | "db.savez_load" =>
-    return putRes st (← jStr (← jField j "out")) ((← getDb st j).savezLoad)
+    let out ← jStr (← jField j "out")
+    histStep st (.savezLoad (← jStr (← jField j "id")) out) out false
   | "db.eq" =>
     return (st, okJ (Json.bool ((← getDb st j "a").eq (← getDb st j "b"))))
   | "db.dump" => return (st, okJ (dbToJson (← getDb st j)))
-  | "db.drop" => return (st.erase (← jStr (← jField j "id")), okJ .null)
+  | "db.drop" =>
+    let id ← jStr (← jField j "id")
+    return ({ pool := st.pool.filter (fun e => e.1 != id), spec := st.spec.filter (fun e => e.1 != id) }, okJ .null)
   | "db.reset" => return ({}, okJ .null)
   | "db.savetxt" =>
     let d ← getDb st j
     let withNames ← jBool (← jField j "with_names")
-    let lines := ((d.array.getD []).zip d.fpNames).map (fun p =>
-      String.mk ((bitstringOfRow d.bits p.1).map (fun b => if b then '1' else '0')) ++
-        (if withNames then " " ++ (p.2.getD "None") else ""))
-    return (st, okJ (Json.arr (lines.map Json.str).toArray))
+    return (st, okJ (Json.arr ((d.savetxtLines withNames).map (fun l => Json.str (String.mk l))).toArray))
   | _ => .error s!"unknown op {op}"
 
 end E3fpVerif
